@@ -96,6 +96,10 @@ pub struct ProcState {
     eof_reads: u32,
     pub program: String,
     pub args: Vec<String>,
+    /// ordinal of the spawn that created this process (failed spawns count)
+    pub spawn_idx: usize,
+    /// response-bearing commands this process has read so far
+    pub n_resp_local: usize,
 }
 
 pub struct World {
@@ -183,6 +187,13 @@ impl World {
     pub fn command_points(&self) -> usize {
         self.n_commands
     }
+    pub fn spawns(&self) -> usize {
+        self.n_spawns
+    }
+    /// (spawn ordinal, local response count, alive) of the most recently spawned process
+    pub fn current_proc(&self) -> Option<(usize, usize, bool)> {
+        self.procs.last().map(|p| (p.spawn_idx, p.n_resp_local, p.alive))
+    }
 
     fn spawn(&mut self, program: &str, args: &[String]) -> io::Result<usize> {
         let spawn_idx = self.n_spawns;
@@ -220,6 +231,8 @@ impl World {
             eof_reads: 0,
             program: program.to_string(),
             args: args.to_vec(),
+            spawn_idx,
+            n_resp_local: 0,
         });
         Ok(self.procs.len() - 1)
     }
@@ -279,10 +292,13 @@ impl World {
         let cmd_index = self.n_commands;
         self.n_commands += 1;
         self.stats.commands += 1;
+        let mut local = None;
         let resp_index = if kind.response_bearing() {
             let r = self.n_resp;
             self.n_resp += 1;
             self.stats.response_points += 1;
+            local = Some((self.procs[p].spawn_idx, self.procs[p].n_resp_local));
+            self.procs[p].n_resp_local += 1;
             Some(r)
         } else {
             None
@@ -290,7 +306,7 @@ impl World {
         self.event("cmd", &raw);
 
         // fault that kills the process before it reads this command
-        let fault = self.plan.at(cmd_index, resp_index);
+        let fault = self.plan.at(cmd_index, resp_index, local);
         if let Some(f) = &fault {
             if let FaultKind::Exit { when: ExitWhen::BeforeRead, status, stderr } = &f.kind {
                 self.event("fault", &f.describe());
